@@ -19,6 +19,15 @@ mark_as_active() for EVERY item of backend_event before looking at it; a Pong is
 arm breaks with Error::Transport("WebSocket ping/pong inactive") iff is_inactive(); utils.rs: is_inactive =
 `if last_active.elapsed() >= inactive_dur { count += 1 }  count >= max_count`, mark_as_active only writes last_active;
 the builder wires inactive_limit / max_failures / ping_interval into them and max_failures asserts > 0.
+Cancel-safety of the receive loop, recv_persistence(): is the in-flight `receiver.receive()` future kept alive across the
+iterations of read_task's select loop?  `recv_future_persistent := true` iff the receiver is moved into a
+`futures_util::stream::unfold(receiver, |mut receiver| async { let res = receiver.receive().await; Some((res, receiver)) })`
+stream that is pinned before the loop, the loop's receive arm polls `.next()` on that stream and `.receive()` is not called
+anywhere inside the loop; `false` when a select arm of the loop calls `receiver.receive()` itself (a fresh future per
+iteration: dropped, with the partly read message inside it, whenever another arm wins); anything else is a missing anchor.
+TransportReceiverT::receive is not cancel-safe, Model/ClientShutdown.v delivers frames whole: Props/C09.v states
+`recv_future_persistent = true`, so the `false` shape is accepted HERE (the other anchors are checked on both shapes) and
+refused by coqc.
 The source file can be overridden with the environment variable VERIF_SHUTDOWN_SRC (or run(path=...)) for trying
 the translator on a scratch copy."""
 import os, re
@@ -132,6 +141,37 @@ def classify(src):
 UTILS_REL = "core/src/client/async_client/utils.rs"
 
 
+def recv_persistence(src):
+    """-> (True|False, name of the expression the receive arm polls) or (None, error string)"""
+    W = lambda t: re.sub(r"\s+", " ", _strip_comments(t))
+    read = translate._fn_body(src, r"async fn read_task<R, S>\(params: ReadTaskParams<R, S>\)")
+    if read is None:
+        return None, "read_task not found"
+    body = _strip_comments(read)
+    loop, _, err = _after_loop(body, "read_task")
+    if err:
+        return None, err
+    head = W(body[:body.find("let res = loop")])
+    rl = W(loop)
+    if re.search(r"\w+ = receiver\.receive\(\) =>", rl):
+        return False, "receiver.receive()"
+    m = re.search(r"let (\w+) = futures_util::stream::unfold\(receiver, \|mut receiver\| async \{ let res = receiver\.receive\(\)\.await; "
+                  r"Some\(\(res, receiver\)\) \}\);", head)
+    if not m:
+        return None, "read_task: neither `let <stream> = futures_util::stream::unfold(receiver, |mut receiver| async { let res = receiver.receive().await; Some((res, receiver)) });` before the loop nor a `receiver.receive()` select arm in it"
+    name = m.group(1)
+    pin = re.search(r"tokio::pin!\(([^)]*)\);", head[m.end():])
+    if not pin or name not in [x.strip() for x in pin.group(1).split(",")]:
+        return None, "read_task: the receive stream `%s` is not pinned (tokio::pin!) before the loop" % name
+    if ".receive()" in rl or "unfold(" in rl:
+        return None, "read_task: `.receive()` / `unfold(` inside the select loop although the stream `%s` exists" % name
+    if len(re.findall(r"\w+ = %s\.next\(\) =>" % re.escape(name), rl)) != 1:
+        return None, "read_task: the select loop does not have exactly one arm `<x> = %s.next() =>`" % name
+    if len(re.findall(r"\b%s\b" % re.escape(name), rl)) != 1:
+        return None, "read_task: the receive stream `%s` is used in the loop other than by its one `.next()` arm" % name
+    return True, name + ".next()"
+
+
 def check_ping(src, utils):
     """-> None or an error string: the wiring that Model/ClientShutdown.v (ping / inactivity) transcribes"""
     W = lambda t: re.sub(r"\s+", " ", _strip_comments(t))
@@ -151,11 +191,19 @@ def check_ping(src, utils):
         return "send_task: the select arms are not closed() < from_frontend.recv() < ping_interval.next()"
     if not re.search(r"_ = ping_interval\.next\(\) => \{ if let Err\(err\) = sender\.send_ping\(\)\.await \{ (tracing::debug!\([^;]*\); )?break Err\(Error::Transport\(err\.into\(\)\)\); \} \}", sl):
         return "send_task: the ping arm is not `if let Err(err) = sender.send_ping().await { break Err(Error::Transport(err.into())) }`"
-    if not re.search(r"maybe_msg = backend_event\.next\(\) => \{ inactivity_check\.mark_as_active\(\); let Some\(msg\) = maybe_msg else \{ break Ok\(\(\)\) \};", rl):
-        return "read_task: `inactivity_check.mark_as_active();` is not the first statement of the backend_event arm"
+    persistent, _ = recv_persistence(src)
+    if persistent is None:
+        return _
+    # the receive arm in either shape (the per-iteration `receiver.receive()` shape is refused by Props/C09.v, not here)
+    arm = r"maybe_msg = backend_event\.next\(\) =>" if persistent else r"\w+ = receiver\.receive\(\) =>"
+    first = (r" \{ inactivity_check\.mark_as_active\(\); let Some\(msg\) = maybe_msg else \{ break Ok\(\(\)\) \};" if persistent
+             else r" \{ inactivity_check\.mark_as_active\(\);")
+    if not re.search(arm + first, rl):
+        return "read_task: `inactivity_check.mark_as_active();` is not the first statement of the receive arm"
     if not re.search(r"_ = inactivity_stream\.next\(\) => \{ if inactivity_check\.is_inactive\(\) \{ break Err\(Error::Transport\(\"WebSocket ping/pong inactive\"\.into\(\)\)\); \} \}", rl):
         return "read_task: the inactivity arm is not `if inactivity_check.is_inactive() { break Err(Error::Transport(\"WebSocket ping/pong inactive\".into())) }`"
-    x, y = rl.find("maybe_msg = backend_event.next() =>"), rl.find("_ = inactivity_stream.next() =>")
+    mx = re.search(arm, rl)
+    x, y = (mx.start() if mx else -1), rl.find("_ = inactivity_stream.next() =>")
     if not (0 <= x < y):
         return "read_task: backend_event is not looked at before inactivity_stream"
     if not re.search(r"Some\(Ok\(ReceivedMessage::Pong\)\) => \{ (tracing::debug!\([^;]*\); )?Ok\(vec!\[\]\) \}", W(src)):
@@ -188,6 +236,9 @@ def run(path=None):
     err = check_ping(src, utils)
     if err:
         return err
+    persistent, polled = recv_persistence(src)
+    if persistent is None:
+        return polled
     out = ["(* GENERATED by tools/translators/shutdown_order.py from /repo/%s -- do not edit *)" % REL,
            "From JV Require Import Model.ClientShutdown.",
            "",
@@ -196,6 +247,10 @@ def run(path=None):
            "",
            "(* ping / inactivity wiring as the model transcribes it (checked, see check_ping): ping arm last in send_task's biased select,",
            "   mark_as_active on every received item, count += 1 when stale and never reset, dead when count >= max_count > 0 *)",
+           "",
+           "(* is the in-flight receiver.receive() future kept across the iterations of read_task's select loop (moved into an",
+           "   unfold stream pinned before the loop, the arm polls .next() on it)?  the receive arm of the loop polls: %s *)" % polled,
+           "Definition recv_future_persistent : bool := %s." % ("true" if persistent else "false"),
            ""]
     if not path:
         vlib.write_if_changed(os.path.join(translate.GEN, "ShutdownOrderGen.v"), "\n".join(out))
